@@ -1,0 +1,128 @@
+//go:build verif
+
+// Contracts for package ez, checked by /verif/govc (see /verif/DESIGN.md).  Comment-only file.
+
+package ez
+
+// user code / other packages, by contract
+//@ iface TP.ConfigPath(c) (path, ok)
+//@   pure
+//@ functype ez.DecoderFactoryWithParams(f, path, params) (dec)
+//@ functype ez.DecoderFactory(f, path) (dec)
+//@ extern func flag.NewCmdLineSet(cfg, template) (s, err)
+//@   ensures err == nil ==> s != nil
+//@ extern func flag.DefaultFlagNameConfig() (c)
+//@   ensures c != nil
+//@ extern func transform.NewAliasMangler(tags) (m)
+//@   ensures m != nil && fresh(m)
+//@ extern func tagformat.NewTagReformattingMangler(tag, dec, enc) (m)
+//@   ensures m != nil && fresh(m)
+//@ extern func file.NewSource(path, dec) (s, err)
+//@   ensures err == nil ==> s != nil
+//@ extern func file.NewWatchingSource(path, dec) (s, err)
+//@   ensures err == nil ==> s != nil
+
+//@ func ez.fileSource(cfgPath, decoder, watch) (src, err)
+//@   props C18
+//@   safety C16
+//@   flag record fileSource
+//@   ensures C18_file_source_or_error: (err == nil) <==> (src != nil)
+
+// The typestate of the entry point: Config with (blank, env, flags) under delayed verification and
+// suppressed global callbacks; the file path is read from that first view; SetSource (blocking) strictly
+// before EnableVerification; one Events value drained afterwards; every callee error is returned and
+// then no Dials is returned.
+//@ func ez.ConfigFileEnvFlagDecoderFactoryParams(ctx, cfg, df, params) (d, err)
+//@   props C18
+//@   safety C16
+//@   flag record ezMain
+//@   requires ctx != nil && cfg != nil && df != nil
+//@   modifies *
+//@   at call dp.Config:
+//@     assert C18_source_order_blank_env_flags: len(arg3) == 3 && isType(cell(selem(arg3, 0), "Iface"), "*sourcewrap.Blank")
+//@          && isType(cell(selem(arg3, 1), "Iface"), "*env.Source") && cell(selem(arg3, 2), "Iface") == flagSrc && flagSrc != nil
+//@     assert C18_delayed_verification_and_suppressed_callbacks: arg0.DelayInitialVerification
+//@          && arg0.CallGlobalCallbacksAfterVerificationEnabled && !arg0.SkipInitialVerification
+//@     assert C18_callbacks_passed_through: arg0.OnNewConfig == params.OnNewConfig && arg0.OnWatchedError == params.OnWatchedError
+//@     assert C18_defaults_are_the_callers_struct: arg2 == cfg
+//@   at call (TP)(basecfg).ConfigPath:
+//@     assert C18_path_read_from_the_fileless_view: rec_blankSetSource_cnt == old(rec_blankSetSource_cnt)
+//@          && rec_enableVerification_cnt == old(rec_enableVerification_cnt) && arg0 == basecfg
+//@   at call sourcewrap.NewTransformingDecoder:
+//@     assert C14_C18_alias_mangler_is_first: len(arg1) >= 1 && isType(cell(selem(arg1, 0), "Iface"), "*transform.AliasMangler")
+//@   at call blank.SetSource:
+//@     assume rely_config_watched_the_blank: blank.t != nil && blank.wa != nil
+//@     assert C18_file_set_before_verification: rec_enableVerification_cnt == old(rec_enableVerification_cnt)
+//@     assert C18_blank_is_the_configured_one: isType(cell(selem(rec_dialsConfig_arg3[old(rec_dialsConfig_cnt)], 0), "Iface"), "*sourcewrap.Blank")
+//@   at call d.Events:
+//@     assert C18_drain_only_after_file_and_verification: rec_blankSetSource_cnt == old(rec_blankSetSource_cnt) + 1
+//@          && rec_blankSetSource_res0[old(rec_blankSetSource_cnt)] == nil
+//@          && rec_enableVerification_cnt == old(rec_enableVerification_cnt) + 1 && rec_enableVerification_res2[old(rec_enableVerification_cnt)] == nil
+//@   ensures C18_error_returns_no_dials: err != nil ==> d == nil
+//@   ensures C18_success_returns_the_configured_dials: err == nil ==> d != nil && rec_dialsConfig_cnt == old(rec_dialsConfig_cnt) + 1
+//@        && d == rec_dialsConfig_res0[old(rec_dialsConfig_cnt)] && rec_dialsConfig_res1[old(rec_dialsConfig_cnt)] == nil
+//@   ensures C18_verified_exactly_once_on_the_full_stack: err == nil ==> rec_enableVerification_cnt == old(rec_enableVerification_cnt) + 1
+//@        && rec_enableVerification_arg0[old(rec_enableVerification_cnt)] == d && rec_enableVerification_res2[old(rec_enableVerification_cnt)] == nil
+//@   ensures C18_verify_failure_is_returned: rec_enableVerification_cnt == old(rec_enableVerification_cnt) + 1
+//@        && rec_enableVerification_res2[old(rec_enableVerification_cnt)] != nil ==> err != nil
+//@   ensures C18_file_failure_is_returned: rec_blankSetSource_cnt == old(rec_blankSetSource_cnt) + 1
+//@        && rec_blankSetSource_res0[old(rec_blankSetSource_cnt)] != nil ==> err != nil && rec_enableVerification_cnt == old(rec_enableVerification_cnt)
+//@   ensures C18_at_most_one_file_source: rec_blankSetSource_cnt <= old(rec_blankSetSource_cnt) + 1
+//@   ensures C18_blank_released_iff_not_watching: rec_dialsConfig_cnt == old(rec_dialsConfig_cnt) + 1 && rec_dialsConfig_res1[old(rec_dialsConfig_cnt)] == nil ==>
+//@        rec_blankDone_cnt == old(rec_blankDone_cnt) + b2i(!params.WatchConfigFile)
+
+// The other entry points are thin wrappers: same context, defaults and params, result passed through.
+//@ func ez.ConfigFileEnvFlag(ctx, cfg, df, params) (d, err)
+//@   props C18
+//@   safety C16
+//@   flag record ezFileEnvFlag
+//@   requires ctx != nil && cfg != nil && df != nil
+//@   modifies *
+//@   ensures C18_wrapper_passes_through: rec_ezMain_cnt == old(rec_ezMain_cnt) + 1 && rec_ezMain_arg0[old(rec_ezMain_cnt)] == ctx
+//@        && rec_ezMain_arg1[old(rec_ezMain_cnt)] == cfg && rec_ezMain_arg3[old(rec_ezMain_cnt)] == params
+//@        && d == rec_ezMain_res0[old(rec_ezMain_cnt)] && err == rec_ezMain_res1[old(rec_ezMain_cnt)]
+
+//@ func ez.FileExtensionDecoderConfigEnvFlag(ctx, cfg, params) (d, err)
+//@   props C18
+//@   safety C16
+//@   requires ctx != nil && cfg != nil
+//@   modifies *
+//@   ensures C18_wrapper_passes_through: rec_ezMain_cnt == old(rec_ezMain_cnt) + 1 && rec_ezMain_arg0[old(rec_ezMain_cnt)] == ctx
+//@        && rec_ezMain_arg1[old(rec_ezMain_cnt)] == cfg && rec_ezMain_arg3[old(rec_ezMain_cnt)] == params
+//@        && d == rec_ezMain_res0[old(rec_ezMain_cnt)] && err == rec_ezMain_res1[old(rec_ezMain_cnt)]
+
+//@ func ez.YAMLConfigEnvFlag(ctx, cfg, params) (d, err)
+//@   props C18
+//@   safety C16
+//@   requires ctx != nil && cfg != nil
+//@   modifies *
+//@   ensures C18_wrapper_passes_through: rec_ezFileEnvFlag_cnt == old(rec_ezFileEnvFlag_cnt) + 1 && rec_ezFileEnvFlag_arg0[old(rec_ezFileEnvFlag_cnt)] == ctx
+//@        && rec_ezFileEnvFlag_arg1[old(rec_ezFileEnvFlag_cnt)] == cfg && rec_ezFileEnvFlag_arg3[old(rec_ezFileEnvFlag_cnt)] == params
+//@        && d == rec_ezFileEnvFlag_res0[old(rec_ezFileEnvFlag_cnt)] && err == rec_ezFileEnvFlag_res1[old(rec_ezFileEnvFlag_cnt)]
+
+//@ func ez.JSONConfigEnvFlag(ctx, cfg, params) (d, err)
+//@   props C18
+//@   safety C16
+//@   requires ctx != nil && cfg != nil
+//@   modifies *
+//@   ensures C18_wrapper_passes_through: rec_ezFileEnvFlag_cnt == old(rec_ezFileEnvFlag_cnt) + 1 && rec_ezFileEnvFlag_arg0[old(rec_ezFileEnvFlag_cnt)] == ctx
+//@        && rec_ezFileEnvFlag_arg1[old(rec_ezFileEnvFlag_cnt)] == cfg && rec_ezFileEnvFlag_arg3[old(rec_ezFileEnvFlag_cnt)] == params
+//@        && d == rec_ezFileEnvFlag_res0[old(rec_ezFileEnvFlag_cnt)] && err == rec_ezFileEnvFlag_res1[old(rec_ezFileEnvFlag_cnt)]
+
+//@ func ez.CueConfigEnvFlag(ctx, cfg, params) (d, err)
+//@   props C18
+//@   safety C16
+//@   requires ctx != nil && cfg != nil
+//@   modifies *
+//@   ensures C18_wrapper_passes_through: rec_ezFileEnvFlag_cnt == old(rec_ezFileEnvFlag_cnt) + 1 && rec_ezFileEnvFlag_arg0[old(rec_ezFileEnvFlag_cnt)] == ctx
+//@        && rec_ezFileEnvFlag_arg1[old(rec_ezFileEnvFlag_cnt)] == cfg && rec_ezFileEnvFlag_arg3[old(rec_ezFileEnvFlag_cnt)] == params
+//@        && d == rec_ezFileEnvFlag_res0[old(rec_ezFileEnvFlag_cnt)] && err == rec_ezFileEnvFlag_res1[old(rec_ezFileEnvFlag_cnt)]
+
+//@ func ez.TOMLConfigEnvFlag(ctx, cfg, params) (d, err)
+//@   props C18
+//@   safety C16
+//@   requires ctx != nil && cfg != nil
+//@   modifies *
+//@   ensures C18_wrapper_passes_through: rec_ezFileEnvFlag_cnt == old(rec_ezFileEnvFlag_cnt) + 1 && rec_ezFileEnvFlag_arg0[old(rec_ezFileEnvFlag_cnt)] == ctx
+//@        && rec_ezFileEnvFlag_arg1[old(rec_ezFileEnvFlag_cnt)] == cfg && rec_ezFileEnvFlag_arg3[old(rec_ezFileEnvFlag_cnt)] == params
+//@        && d == rec_ezFileEnvFlag_res0[old(rec_ezFileEnvFlag_cnt)] && err == rec_ezFileEnvFlag_res1[old(rec_ezFileEnvFlag_cnt)]
